@@ -70,6 +70,62 @@ func aggOp(t []string) (ans string) {
 	if !ok {
 		return "bad-op"
 	}
+	req := &datatypes.ReadWindowAggregateRequest{
+		Range:       &datatypes.TimestampRange{Start: math.MinInt64, End: math.MaxInt64},
+		WindowEvery: every,
+		Offset:      offset,
+		Aggregate:   []*datatypes.Aggregate{{Type: at}},
+	}
+	return runReq(req, pts, shards)
+}
+
+// monthStop: stop of the calendar window (every = period = `months` months, no offset, UTC)
+// containing t, by the real flux interval package
+func monthStop(months, t int64) int64 {
+	d := values.MakeDuration(0, months, false)
+	w, err := interval.NewWindow(d, d, values.MakeDuration(0, 0, false))
+	if err != nil {
+		panic("bad months")
+	}
+	return int64(w.GetLatestBounds(values.Time(t)).Stop())
+}
+
+// calOp: cal <agg> <typ> <months> <shape> <ts> <vals> <stops>
+func calOp(t []string) (ans string) {
+	months, err := strconv.ParseInt(t[3], 10, 64)
+	if err != nil || months <= 0 {
+		return "bad-op"
+	}
+	at, _, _, pts, shards, ok := parseAgg([]string{"agg", t[1], t[2], "1", "0", t[4], t[5], t[6]})
+	if !ok {
+		return "bad-op"
+	}
+	var stops []int64
+	func() {
+		defer func() { recover() }()
+		stops = h.ParseInts(t[7])
+	}()
+	if len(stops) != len(pts) {
+		return "bad-op"
+	}
+	for i, p := range pts {
+		if monthStop(months, p.T) != stops[i] {
+			return "bad-op" // the boundaries in the op line are not the real package's
+		}
+	}
+	req := &datatypes.ReadWindowAggregateRequest{
+		Range:     &datatypes.TimestampRange{Start: math.MinInt64, End: math.MaxInt64},
+		Aggregate: []*datatypes.Aggregate{{Type: at}},
+		// the form the Flux reader sends (storage/flux/reader.go windowAggregateIterator.Do)
+		Window: &datatypes.Window{
+			Every:  &datatypes.Duration{Nsecs: 0, Months: months, Negative: false},
+			Offset: &datatypes.Duration{},
+		},
+	}
+	return runReq(req, pts, shards)
+}
+
+func runReq(req *datatypes.ReadWindowAggregateRequest, pts []rmock.Pt, shards []rmock.Shard) (ans string) {
 
 	defer func() {
 		if r := recover(); r != nil {
@@ -85,12 +141,6 @@ func aggOp(t []string) (ans string) {
 		}
 	}()
 
-	req := &datatypes.ReadWindowAggregateRequest{
-		Range:       &datatypes.TimestampRange{Start: math.MinInt64, End: math.MaxInt64},
-		WindowEvery: every,
-		Offset:      offset,
-		Aggregate:   []*datatypes.Aggregate{{Type: at}},
-	}
 	its := rmock.Iters(shards)
 	if reads.IsLastDescendingAggregateOptimization(req) {
 		// v1/services/storage.Store.WindowAggregate → findShardIDs(desc=true): the shard
@@ -152,6 +202,8 @@ func op(t []string) string {
 		return aggOp(t)
 	case len(t) == 6 && t[0] == "win":
 		return winOp(t)
+	case len(t) == 8 && t[0] == "cal":
+		return calOp(t)
 	}
 	return "bad-op"
 }
@@ -370,6 +422,34 @@ func bigAgg(r *h.Rand, agg string, typ byte, windows int) string {
 	return aggLine(agg, typ, every, offset, shapeOf(r, parts, r.Chance(0.3)), ts, vals)
 }
 
+// calLine: a request over a calendar window (1mo, 3mo, 1y); the window boundaries of every
+// point come from the real flux interval package and travel in the op line
+func calLine(r *h.Rand, agg string) string {
+	typ := h.Pick(r, []byte{'f', 'i', 'u'})
+	months := h.Pick(r, []int64{1, 1, 3, 12})
+	const day = int64(86400_000_000_000)
+	t := int64(1_546_300_800_000_000_000) + r.Range(-400, 400)*day + r.Range(0, day-1) // around 2019-01-01
+	n := r.Intn(26)
+	ts := make([]int64, n)
+	vals := make([]string, n)
+	stops := make([]int64, n)
+	for i := 0; i < n; i++ {
+		t += r.Range(1, 20*months) * day / h.Pick(r, []int64{1, 1, 2, 24})
+		if r.Chance(0.15) { // right on / next to a month boundary
+			t = monthStop(months, t) - h.Pick(r, []int64{0, 1, 2})
+			if i > 0 && t <= ts[i-1] {
+				t = ts[i-1] + 1
+			}
+		}
+		ts[i] = t
+		vals[i] = genVal(r, typ, false)
+		stops[i] = monthStop(months, t)
+	}
+	parts := composition(r, n, h.Pick(r, []int{1, 3, 7, 1000}))
+	return "cal " + agg + " " + string(typ) + " " + strconv.FormatInt(months, 10) + " " + shapeOf(r, parts, r.Chance(0.5)) +
+		" " + h.Ints(ts) + " " + h.Join(vals) + " " + h.Ints(stops)
+}
+
 func winLine(r *h.Rand) string {
 	every := pickEvery(r)
 	if every == math.MaxInt64 {
@@ -455,6 +535,18 @@ func gen(r *h.Rand, tier string, emit func([]string)) {
 		for i := 0; i < nBig; i++ {
 			emit([]string{bigAgg(r, agg, h.Pick(r, typs), int(h.Pick(r, edge)))})
 		}
+	}
+	// 3b. calendar windows (months), boundaries from the real interval package
+	nCal := 8
+	if tier == "thorough" {
+		nCal = 120
+	}
+	for _, agg := range aggs {
+		var ops []string
+		for i := 0; i < nCal; i++ {
+			ops = append(ops, calLine(r, agg))
+		}
+		emit(ops)
 	}
 	// 4. interval.Window on its own
 	for i := 0; i < nWin; i++ {
